@@ -8,6 +8,10 @@ import (
 	"grol.io/grol/object"
 )
 
+// verifErrText makes verifSameOutcome compare the text of errors too (C04 and C05: "errors are identical"; the other
+// users compare programs whose error messages legitimately quote different program text).
+var verifErrText bool
+
 // verifCacheOff is the C04 switch read by the overlay-rewritten eval/memo.go (Cache.Get misses, Cache.Set stores nothing).
 var verifCacheOff bool
 
@@ -110,6 +114,9 @@ func verifSameOutcome(a, b verifOutcome, label string) {
 	}
 	vAssert(a.out == b.out, label+"/printed-output")
 	vAssert(a.isErr == b.isErr, label+"/error-outcome")
+	if verifErrText && a.isErr && b.isErr {
+		vAssert(a.res.Inspect() == b.res.Inspect(), label+"/error-text")
+	}
 	if a.isErr || b.isErr || a.res == nil || b.res == nil {
 		return
 	}
@@ -127,6 +134,7 @@ func verifBothNaN(a, b object.Object) bool {
 
 // VerifRegDiff: the session behaves the same with the register optimisation on and off. args: inputs...
 func VerifRegDiff(args []string) {
+	verifErrText = true
 	vals := verifVals(args)
 	verifSmallVals(args, vals)
 	s1, o1 := verifNewState(false)
@@ -148,6 +156,7 @@ func VerifRegDiff(args []string) {
 
 // VerifCacheDiff: the session behaves the same with memoization on and off. args: inputs...
 func VerifCacheDiff(args []string) {
+	verifErrText = true
 	// vacuity probe: the switch really disables the cache
 	verifCacheOff = true
 	ps, po := verifNewState(false)
@@ -189,6 +198,9 @@ func verifDiffOutcome(a, b verifOutcome) string {
 	}
 	if a.isErr != b.isErr {
 		return "/error-outcome"
+	}
+	if a.isErr && a.res.Inspect() != b.res.Inspect() {
+		return "/error-text"
 	}
 	if a.isErr || a.res == nil || b.res == nil {
 		return ""
